@@ -354,11 +354,35 @@ class _FunctionPass:
                         n.value, ast.Name) and n.attr in (
                         "shape", "T", "dtype", "ndim", "size", "flatten"):
                     ev.add(n.value.id)
+                elif isinstance(n, ast.Call):
+                    # operands of a dot product are vectors / matrices
+                    f = n.func
+                    if isinstance(f, ast.Attribute) and f.attr == "dot":
+                        ops = list(n.args)
+                        if not (isinstance(f.value, ast.Name)
+                                and f.value.id in ("np", "numpy")):
+                            ops.append(f.value)
+                        for o in ops:
+                            if isinstance(o, ast.Name):
+                                ev.add(o.id)
             a = self.node.args
             for x in a.posonlyargs + a.args + a.kwonlyargs:
                 if x.annotation is not None and "ndarray" in src(
                         x.annotation):
                     ev.add(x.arg)
+            # plain copies 'x = b' name the same object: evidence is shared
+            pairs = [(st.targets[0].id, st.value.id)
+                     for st in _walk_local(self.node)
+                     if isinstance(st, ast.Assign) and len(st.targets) == 1
+                     and isinstance(st.targets[0], ast.Name)
+                     and isinstance(st.value, ast.Name)]
+            changed = True
+            while changed:
+                changed = False
+                for a_, b_ in pairs:
+                    if (a_ in ev) != (b_ in ev):
+                        ev |= {a_, b_}
+                        changed = True
             self._arr_ev = ev
         return name in self._arr_ev
 
